@@ -252,7 +252,19 @@ def leg_referents(tier="quick", seed=0):
     """[C20] as leg_suspended with set_trickery_enabled(False): ordered superset relation; plus
     set_trickery_enabled sequences (also from/on a second thread) and k-th-invocation faults in
     every helper of the trickery analysis."""
-    return _with_children("referents", core.leg_referents, tier, seed)
+    res = _with_children("referents", core.leg_referents, tier, seed)
+    # the recorded C20 finding F21 (aliased exit methods are invisible to the fallback) is
+    # reproduced on dedicated programs and reported with its signature; everything else above is
+    # an ordinary violation
+    known = leg_known_discrepancies(tier, seed)
+    res["evaluations"] += known["evaluations"]
+    res["violations"] += known["violations"]      # sig-tagged ones, plus any unclassified failure
+    res["known_reproduced"] = known["known_reproduced"]
+    res["info"]["violations_total"] = res["info"].get("violations_total", 0) + known["info"].get("violations_total", 0)
+    res["info"]["known_total"] = res["info"].get("known_total", 0) + known["info"].get("known_total", 0)
+    res["info"]["known_leg"] = {"evaluations": known["evaluations"], "known_total": known["info"].get("known_total"),
+                                "parts": known["info"].get("parts"), "interpreters": known["info"].get("interpreters")}
+    return res
 
 
 def leg_known_discrepancies(tier="quick", seed=0):
@@ -260,7 +272,8 @@ def leg_known_discrepancies(tier="quick", seed=0):
     programs; every matching violation carries `sig`, result["known_reproduced"] lists the
     signatures seen (see progs_child.KNOWN_SIGS).  Not part of the other legs, which therefore
     stay at 0 violations on the unchanged tree:
-      exit_wrapper_varargs_obj_none  (C01, C02)   referents_alias_exit_name  (C20)"""
+      referents_alias_exit_name  (C20, known_findings.json F21)
+    progs.leg_referents appends these violations and sets result["known_reproduced"]."""
     res = _with_children("known", core.leg_known, tier, seed)
     res["known_reproduced"] = sorted(set(v["sig"] for v in res["violations"] if v.get("sig")))
     return res
@@ -295,9 +308,9 @@ def collect_states(tier="quick", seed=0, leg="suspended", limit=None, progs=None
 PURITY = {
     # programs: how many programs of the (shuffled) tier corpus are twin-run; max_runs: branch
     # vectors per program; gc_every: full retention check (gc.collect + weakrefs) every n-th twin
-    "tiny": dict(programs=36, max_runs=4, gc_every=8, deadline=20.0),
-    "quick": dict(programs=50, max_runs=6, gc_every=8, deadline=36.0),
-    "thorough": dict(programs=1000, max_runs=12, gc_every=1, deadline=430.0),
+    "tiny": dict(programs=36, max_runs=4, gc_every=8, abandon=20, deadline=20.0),
+    "quick": dict(programs=38, max_runs=6, gc_every=8, abandon=30, deadline=36.0),
+    "thorough": dict(programs=900, max_runs=12, gc_every=1, abandon=400, deadline=430.0),
 }
 
 
@@ -345,11 +358,81 @@ def _obs_probe(st8, R, outer):
     return a, b
 
 
+def purity_programs():
+    """Loops whose body is `with M(...): <suspend>`: the same suspension offset is reached again
+    with a different manager instance (no `as` target, so the old one dies with its exit)."""
+    for variant in ("gen", "coro", "agen"):
+        a = variant in core.ASYNC_VARIANTS
+        yield {"variant": variant, "family": "purity", "tag": "loop/with/susp",
+               "body": [["for", [["with", False, [["S", "n"]], [["susp"]]]], None], ["susp"]]}
+        yield {"variant": variant, "family": "purity", "tag": "while/with+hold/susp",
+               "body": [["while", [["with", False, [["G", "n"], ["Sw", "n"]], [["hold"], ["susp"]]], ["susp"]], None]]}
+        if a:
+            yield {"variant": variant, "family": "purity", "tag": "loop/async with/susp",
+                   "body": [["for", [["with", True, [["A", "n"]], [["susp"]]]], None], ["susp"]]}
+            yield {"variant": variant, "family": "purity", "tag": "loop/with in async with/susp",
+                   "body": [["with", True, [["A0", "v"]], [["for", [["with", False, [["S", "n"]], [["susp"], ["susp"]]]], None]]]]}
+
+
+def _abandon_case(prog, k, baseline):
+    """Drive a gen/coro program to its k-th suspension, make every manager that is entered point
+    back to the target, extract twice (unless `baseline`), drop everything including the
+    unfinished target, collect.  -> None (no manager entered there) | (names of survivors,)"""
+    import stackscope
+    R = Run([True, False, True])
+    prev = core._CUR[0]
+    core._CUR[0] = R
+    hook = sys.unraisablehook
+    sys.unraisablehook = lambda *a: None
+    try:
+        g = prog.fn()
+        try:
+            for i in range(k + 1):
+                g.send(None if i == 0 else 1)
+        except BaseException:
+            g = None
+            return None
+        mgrs = [e[0] for lst in R.truth.values() for e in lst]
+        if not mgrs:
+            g.close()
+            g = None
+            return None
+        refs = [weakref.ref(g)]
+        for m in mgrs:
+            m.backref = g
+            refs.append(weakref.ref(m))
+        m = None
+        del mgrs
+        if not baseline:
+            a = stackscope.extract(g, with_contexts=True)
+            b = stackscope.extract(g, with_contexts=True)
+            del a, b
+        R.truth.clear()
+        R.foi = []
+        R.aborted = True          # the managers' exits run during collection; no hooks, no limits
+        g = None
+        gc.collect()
+        gc.collect()
+        alive = sorted({type(r()).__name__ for r in refs if r() is not None})
+        return (alive,)
+    finally:
+        sys.unraisablehook = hook
+        core._CUR[0] = prev
+        g = prog.fn.__globals__
+        g["ns"].__dict__.clear()
+        g["d"].clear()
+
+
 def leg_purity(tier="quick", seed=0):
     """[C06] twin runs (observed at a subset of suspension/probe points, possibly repeatedly, vs
     never): identical event trace; two extractions of an unchanged target compare equal;
     refcounts of value-stack-only objects return to baseline; managers / generator objects /
-    sentinels are collectable once the Stacks are dropped; both analysis modes."""
+    sentinels are collectable once the Stacks are dropped; both analysis modes.
+    Also: what each extraction reports is compared with the truth (a loop that parks at the same
+    offset with a new manager must report the new one); at every suspension the set of
+    managers/sentinels still alive (after gc.collect(), results dropped, target still alive) must
+    equal the unobserved twin's; an abandoned target whose managers refer back to it must be
+    collectable after dropping all results."""
     import stackscope
     ll = core._ll()
     t0 = time.time()
@@ -361,6 +444,7 @@ def leg_purity(tier="quick", seed=0):
     random.Random(seed * 13 + 7).shuffle(descs)
     progs = []
     seen = set()
+    descs = list(purity_programs()) + descs
     for i, d in enumerate(descs):
         if len(progs) >= cfg["programs"]:
             break
@@ -377,8 +461,46 @@ def leg_purity(tier="quick", seed=0):
     truncated = False
     stop_codes = _snap_codes()
     state = {}
+    notes = {}
+
+    def alive_now(R):
+        gc.collect()
+        return ([i + 1 for i, w in enumerate(R.mgr_refs) if w() is not None],
+                [i for i, w in enumerate(R.sentinels) if w() is not None])
+
+    def on_suspend_base(R, obj, how, idx):
+        R.alive_log.append(alive_now(R))
 
     def on_suspend(R, obj, how, idx):
+        if state["alive"] is not None:
+            # results of earlier extractions were dropped, the target is still alive: nothing of
+            # it may live longer than in the unobserved twin
+            col.evaluations += 1
+            col.count("alive_set_checks")
+            want = state["alive"][idx] if idx < len(state["alive"]) else None
+            got = alive_now(R)
+            if want is not None and got != want:
+                # CPython <= 3.12 keeps the dict made by frame.f_locals (which the analysis reads)
+                # on the frame: a local that was rebound since stays referenced by that snapshot
+                # until f_locals is read again or the frame ends.  That reference is the
+                # interpreter's, not stackscope's: refresh the snapshots and look again.
+                for kind, ref, owner in R.foi:
+                    fr = own_frame(obj) if kind == "code" else own_frame(ref)
+                    if fr is not None:
+                        fr.f_locals
+                fr = None
+                got2 = alive_now(R)
+                if got2 == want:
+                    col.count("retained_only_by_f_locals_snapshot")
+                    if "f_locals_snapshot_example" not in notes:
+                        notes["f_locals_snapshot_example"] = {"program": state["prog"].src, "vector": list(R.vec),
+                                                              "suspension_index": idx, "alive": got, "twin": want}
+                got = got2
+            if want is not None and got != want:
+                col.violation("objects of the target outlive the unobserved twin at suspension %d while the target is "
+                              "alive: managers (by creation order) %r vs %r, sentinels %r vs %r"
+                              % (idx, got[0], want[0], got[1], want[1]), R, state["prog"],
+                              suspension_index=idx, mode=state["mode"], observed=state["variant"])
         if not state["mask"](("s", idx)):
             return
         col.count("observation_points")
@@ -394,6 +516,20 @@ def leg_purity(tier="quick", seed=0):
             col.violation("extract raised %r" % (ex,), R, state["prog"], suspension_index=idx)
             return
         col.evaluations += 1
+        for fr in sts[-1].frames:
+            if R.owner_of(fr.pyframe) == "main":
+                got = view(fr.contexts)
+                if state["mode"] == "trickery":
+                    msg = None if same_view(got, R.expected("main")) else "contexts differ from truth"
+                else:
+                    msg = core.referents_ok(got, R, "main")
+                col.evaluations += 1
+                if msg:
+                    col.violation("extraction (repeated / after earlier extractions): " + msg, R, state["prog"],
+                                  suspension_index=idx, mode=state["mode"], got=show_view(got),
+                                  expected=show_view(R.expected("main")), lasti=fr.pyframe.f_lasti)
+                got = None
+        fr = None
         sigs = [stack_sig(s) for s in sts]
         if any(s != sigs[0] for s in sigs[1:]):
             col.violation("two extractions of an unchanged suspended target differ", R, state["prog"],
@@ -449,19 +585,23 @@ def leg_purity(tier="quick", seed=0):
                     vectors = []
 
                     def visit(R, prefix):
-                        vectors.append((list(prefix), R.log, R.nsusp))
+                        vectors.append((list(prefix), R.log, R.nsusp, R.alive_log))
 
-                    explore(prog, None, cfg["max_runs"], None, None, visit)
-                    jobs = [(vec, None, log) for vec, log, ns in vectors]
+                    explore(prog, None, cfg["max_runs"], None, on_suspend_base, visit)
+                    jobs = [(vec, None, log, al) for vec, log, ns, al in vectors]
                     # one throw twin per program
                     if vectors and vectors[-1][2]:
                         k = rng.randrange(vectors[-1][2])
-                        Rb = execute(prog, vectors[-1][0], k)
-                        jobs.append((vectors[-1][0], k, Rb.log))
+                        Rb = execute(prog, vectors[-1][0], k, None, on_suspend_base)
+                        jobs.append((vectors[-1][0], k, Rb.log, Rb.alive_log))
                         del Rb
-                    for vec, throw_at, base_log in jobs:
+                    for vec, throw_at, base_log, base_alive in jobs:
                         col.count("branch_vectors")
                         for variant in ("all", "subset", "repeat"):
+                            state["variant"] = variant
+                            # Stacks are kept only in the "repeat" variant; in the others every
+                            # result is dropped at once, so lifetimes must match the twin's
+                            state["alive"] = base_alive if variant != "repeat" else None
                             if variant == "all":
                                 state["mask"] = lambda key: True
                                 state["reps"] = 2
@@ -473,7 +613,7 @@ def leg_purity(tier="quick", seed=0):
                                 chosen = rng.getrandbits(64)
                                 state["mask"] = lambda key, chosen=chosen: bool((chosen >> ((key[1] * 2 + (key[0] == "p")) % 64)) & 1)
                                 state["reps"] = 4
-                            state["keep"] = variant != "subset"
+                            state["keep"] = variant == "repeat"
                             state["kept"] = []
                             R1 = execute(prog, vec, throw_at, on_probe, on_suspend)
                             col.evaluations += 1
@@ -508,12 +648,34 @@ def leg_purity(tier="quick", seed=0):
                                                   referrers=[[type(q).__name__ for q in gc.get_referrers(x)][:6] for x in alive[:3]])
                                 del alive
                             del refs
+                # abandoned (never finished) targets whose managers refer back to them
+                for prog in progs[: cfg["abandon"]]:
+                    if prog.variant not in ("gen", "coro"):
+                        continue
+                    if time.time() - t0 > cfg["deadline"]:
+                        truncated = True
+                        break
+                    for k in range(3):
+                        r = _abandon_case(prog, k, True)
+                        if r is None:
+                            continue
+                        if r[0]:
+                            col.count("abandon_baseline_uncollectable")
+                            break
+                        alive = _abandon_case(prog, k, False)
+                        col.evaluations += 1
+                        col.count("abandon_checks")
+                        if alive and alive[0]:
+                            col.violation("abandoned target with back-referencing managers is not collectable after dropping "
+                                          "all results: %s still alive" % (alive[0],), Run([], None), prog,
+                                          suspension_index=k, mode=mode)
+                        break
     finally:
         ll.set_trickery_enabled(None)
         if hasattr(gc, "unfreeze"):
             gc.unfreeze()
     return col.result(wall=round(time.time() - t0, 2), cpu=round(time.process_time() - c0, 2),
-                      truncated=truncated, tier=tier, seed=seed)
+                      truncated=truncated, tier=tier, seed=seed, notes=notes)
 
 
 # ------------------------------------------------------------------------------------------
